@@ -141,3 +141,17 @@ Proof. exact (run_ops_spec ops []). Qed.
 (* the registration verdicts inside a history are the Spec's *)
 Lemma hist_verdict pre m p id : snd (handle (build pre) m p id) = reject (registered pre) m p.
 Proof. exact (proj1 (rejects pre m p id)). Qed.
+
+(* ---- path variables and the rest of the request context ---- *)
+Lemma vars_of_claims claims : forall c, vars_of (add_claims claims c) = vars_of c.
+Proof.
+  induction claims as [|[n v] rest IH]; intro c; [reflexivity|].
+  unfold add_claims in *. cbn [fold_left]. rewrite IH. reflexivity.
+Qed.
+
+(* whatever the claims are called (a path parameter's name, "pathVars", ...) and whatever their values
+   are (even a map[string]string), the handler reads exactly the variables the router bound; without
+   variables it reads what was there before (nil on a fresh request) *)
+Lemma vars_survive ps claims c :
+  vars_of (add_claims claims (serve_ctx ps c)) = match ps with [] => vars_of c | _ => Some ps end.
+Proof. rewrite vars_of_claims. destruct ps; reflexivity. Qed.
